@@ -311,7 +311,7 @@ def model_run(s, order, stop1=None, stop2=None, rfail1=(), rfail2=(), faults=Non
 
 
 def parse_model(ans):
-    d = {}
+    d = {"exit": "?", "total": "none", "lock": "?"}
     for tok in ans.split(" ")[1:]:
         k, _, v = tok.partition("=")
         d[k] = v
@@ -333,7 +333,7 @@ def compare(s, o, order, m, what=("exit", "src", "lock", "tmp", "reports", "tota
     """Differences between an observation and a model answer (empty list = they agree)."""
     diffs = []
     if "error" in m:
-        return ["model runner: %s" % m["error"]]
+        return ["model runner gave no answer: %r" % (m["error"],)]
     if "exit" in what and exit_class(o) != m["exit"]:
         diffs.append("exit: implementation %s (rc=%s), model %s" % (exit_class(o), o.rc, m["exit"]))
     if "src" in what:
